@@ -12,7 +12,8 @@ open Rpft Rpft.Compile Rpft.RefFlow
 /-- the facts about a row of the fragment that the parser looks at -/
 structure RowFacts (c : CRow) : Prop where
   nouid : c.row.nodeUuid = []
-  noname : c.row.nodeName = []
+  /-- a node name: on an action row that has an action only -/
+  noname : c.row.nodeName = [] ∨ (kindOf c.row.type = .action ∧ c.row.action.isSome = true)
   t8 : c.row.type ≠ "no_op".toList
   t9 : c.row.type ≠ "go_to".toList
   t10 : c.row.type ≠ "hard_exit".toList
@@ -42,11 +43,13 @@ theorem rowFacts (c : CRow) (hf : nodeRowOk c = true) : RowFacts c := by
   · simp only [plainActionRow, Bool.and_eq_true, Bool.not_eq_true', List.isEmpty_iff, decide_eq_true_eq] at hf
     obtain ⟨⟨⟨hsp, hu⟩, hnm⟩, _⟩ := hf
     obtain ⟨_, _, _, _, _, _, _, h8, h9, h10, h11, h12⟩ := not_special hsp
-    exact ⟨hu, hnm, h8, h9, h10, h11, h12, .inl (kindOf_action hsp)⟩
+    refine ⟨hu, ?_, h8, h9, h10, h11, h12, .inl (kindOf_action hsp)⟩
+    simp only [Bool.or_eq_true, List.isEmpty_iff] at hnm
+    exact hnm.imp id (fun h => ⟨kindOf_action hsp, h⟩)
   · simp only [switchRow, Bool.and_eq_true, List.isEmpty_iff] at hf
     obtain ⟨⟨⟨hsw, hu⟩, hnm⟩, _⟩ := hf
     have ht := switch_type hsw
-    refine ⟨hu, hnm, ?_, ?_, ?_, ?_, ?_, ?_⟩
+    refine ⟨hu, .inl hnm, ?_, ?_, ?_, ?_, ?_, ?_⟩
     · rcases ht with h | h | h <;> rw [h] <;> decide
     · rcases ht with h | h | h <;> rw [h] <;> decide
     · rcases ht with h | h | h <;> rw [h] <;> decide
@@ -59,7 +62,7 @@ theorem rowFacts (c : CRow) (hf : nodeRowOk c = true) : RowFacts c := by
   · simp only [fixedRow, Bool.and_eq_true, List.isEmpty_iff] at hf
     obtain ⟨⟨⟨hsw, hu⟩, hnm⟩, _⟩ := hf
     have ht := fixed_type hsw
-    refine ⟨hu, hnm, ?_, ?_, ?_, ?_, ?_, ?_⟩
+    refine ⟨hu, .inl hnm, ?_, ?_, ?_, ?_, ?_, ?_⟩
     · rcases ht with h | h | h <;> rw [h] <;> decide
     · rcases ht with h | h | h <;> rw [h] <;> decide
     · rcases ht with h | h | h <;> rw [h] <;> decide
@@ -71,7 +74,7 @@ theorem rowFacts (c : CRow) (hf : nodeRowOk c = true) : RowFacts c := by
       · exact .inr (.inr (.inr (.inr (.inr (.inr (.inl h))))))
   · simp only [randomRow, Bool.and_eq_true, List.isEmpty_iff, decide_eq_true_eq] at hf
     obtain ⟨⟨⟨ht, hu⟩, hnm⟩, _⟩ := hf
-    refine ⟨hu, hnm, ?_, ?_, ?_, ?_, ?_, ?_⟩
+    refine ⟨hu, .inl hnm, ?_, ?_, ?_, ?_, ?_, ?_⟩
     · rw [ht]; decide
     · rw [ht]; decide
     · rw [ht]; decide
@@ -79,9 +82,10 @@ theorem rowFacts (c : CRow) (hf : nodeRowOk c = true) : RowFacts c := by
     · rw [ht]; decide
     · rw [ht]; exact .inr (.inr (.inr (.inr (.inr (.inr (.inr kindOf_random))))))
 
-/-- a row of the fragment goes straight to `newRow` -/
+/-- a row of the fragment whose node name (if any) is not in use goes straight to `newRow` -/
 theorem wp_parseRow_new (c : CRow) (hf : RowFacts c) (s : St) (Q : PUnit → St → Prop)
-    (h : c.row.actionOk = true → wp (newRow { c.row with edges := dropTrivial c.row.edges } []) s Q) :
+    (hex : c.row.nodeName = [] ∨ s.names.find? (·.1 = c.row.nodeName) = none)
+    (h : c.row.actionOk = true → wp (newRow { c.row with edges := dropTrivial c.row.edges } c.row.nodeName) s Q) :
     wp (parseRow c.row) s Q := by
   unfold parseRow
   simp only
@@ -89,10 +93,15 @@ theorem wp_parseRow_new (c : CRow) (hf : RowFacts c) (s : St) (Q : PUnit → St 
   unfold actionRow
   wp_simp
   refine ⟨fun _ => trivial, fun hok => ?_⟩
-  have e1 : (if List.isEmpty c.row.nodeUuid = true then c.row.nodeName else c.row.nodeUuid) = [] := by
-    simp [hf.nouid, hf.noname]
+  have e1 : (if List.isEmpty c.row.nodeUuid = true then c.row.nodeName else c.row.nodeUuid) = c.row.nodeName := by
+    simp [hf.nouid]
   rw [e1]
-  simp only [List.isEmpty_nil, if_true]
+  have e2 : (if c.row.nodeName.isEmpty = true then none
+      else Option.map (fun x => x.2) (List.find? (fun x => decide (x.1 = c.row.nodeName)) s.names)) = none := by
+    rcases hex with hex | hex
+    · simp [hex]
+    · rw [hex]; simp
+  rw [e2]
   exact h (by simpa using hok)
 
 /-- pass 1 on a node-producing row -/
@@ -120,7 +129,7 @@ out-edge yet -/
 theorem rowNode_sim (c : CRow) (hf : nodeRowOk c = true) (edges : List Compile.Edge) (act : Option (Uid × Str))
     (hact : act.map (·.2) = c.row.action) (s : St) (hna : s.noArgs = RefFlow.noArgsTests) :
     wp (rowNode { c.row with edges := edges } act) s (fun n s' =>
-      (∃ k, Bump s s' k) ∧ (∀ r, n.router = some (RouterM.rnd r) → r.cats = []) ∧ ∀ M ns, NodeSim M ns n c []) := by
+      (∃ k, Bump s s' k) ∧ (∀ r, n.router = some (RouterM.rnd r) → r.cats = []) ∧ ∀ M ns, NodeSim M ns n c [] []) := by
   simp only [nodeRowOk, Bool.or_eq_true] at hf
   rcases hf with ((hf | hf) | hf) | hf
   · simp only [plainActionRow, Bool.and_eq_true, Bool.not_eq_true', List.isEmpty_iff, decide_eq_true_eq] at hf
@@ -129,7 +138,7 @@ theorem rowNode_sim (c : CRow) (hf : nodeRowOk c = true) (edges : List Compile.E
     intro n s' ⟨hb, hnk, hnr, hna, hnd⟩
     refine ⟨hb, (fun r hr => by rw [hnr] at hr; cases hr), fun M ns => .plain (kindOf_action hsp) ⟨hnk, hnr, ?_, ?_, ?_⟩⟩
     · have e2 : act.toList.map (·.2) = (act.map (·.2)).toList := by cases act <;> rfl
-      rw [hna, e2, hact]
+      rw [hna, e2, hact, List.append_nil]
     · rw [hnd]; rfl
     · intro e he; cases he
   · simp only [switchRow, Bool.and_eq_true, List.isEmpty_iff] at hf
@@ -211,9 +220,9 @@ theorem forall2_imp_mem {α β} {R S : α → β → Prop} {l1 : List α} {l2 : 
   | cons hab _ ih =>
     exact .cons (himp _ _ (by simp) hab) (ih (fun a b hb => himp a b (by simp [hb])))
 
-theorem NodeSim.congrM {M M' : Maps} {ns : Array NodeM} {n : NodeM} {c : CRow} {es : List OutEdge}
-    (h : ∀ e ∈ es, ∀ k, e.tgt = Target.row k → M'.nOf k = M.nOf k) (hs : NodeSim M ns n c es) :
-    NodeSim M' ns n c es := by
+theorem NodeSim.congrM {M M' : Maps} {ns : Array NodeM} {n : NodeM} {c : CRow} {post : List Str} {es : List OutEdge}
+    (h : ∀ e ∈ es, ∀ k, e.tgt = Target.row k → M'.nOf k = M.nOf k) (hs : NodeSim M ns n c post es) :
+    NodeSim M' ns n c post es := by
   have hlast : ∀ (l : List OutEdge), (∀ e ∈ l, e ∈ es) → ∀ k, (l.getLast?).map (·.tgt) = some (Target.row k) →
       M'.nOf k = M.nOf k := by
     intro l hl k hk
@@ -270,9 +279,9 @@ theorem NodeSim.congrM {M M' : Maps} {ns : Array NodeM} {n : NodeM} {c : CRow} {
       exact h e this k hk
     · exact hp.dflt.congrM (hlast _ (hfil _ _ (fun e he => he)))
 
-theorem RowSim.congrM {M M' : Maps} {ns : Array NodeM} {n : NodeM} {c : CRow} {es : List OutEdge} {ro : Option Nat}
-    (h : ∀ e ∈ es, ∀ k, e.tgt = Target.row k → M'.nOf k = M.nOf k) (hs : RowSim M ns n c es ro) :
-    RowSim M' ns n c es ro := by
+theorem RowSim.congrM {M M' : Maps} {ns : Array NodeM} {n : NodeM} {c : CRow} {post : List Str} {es : List OutEdge} {ro : Option Nat}
+    (h : ∀ e ∈ es, ∀ k, e.tgt = Target.row k → M'.nOf k = M.nOf k) (hs : RowSim M ns n c post es ro) :
+    RowSim M' ns n c post es ro := by
   cases hs with
   | one hn => exact .one (hn.congrM h)
   | impl i' n' r hk hp =>
@@ -298,8 +307,10 @@ theorem RowSim.congrM {M M' : Maps} {ns : Array NodeM} {n : NodeM} {c : CRow} {e
       exact h e this k hk
     · exact hp.dflt.congrM (hlast _ (fun e he => (List.mem_filter.mp he).1))
 
-theorem isNodeRow_of_ok (c : CRow) (hf : nodeRowOk c = true) : isNodeRow c = true := by
+theorem isNodeRow_of_ok (c : CRow) (hf : nodeRowOk c = true) (hm : (c.merged && isNamedAct c) = false) :
+    isNodeRow c = true := by
   unfold isNodeRow
+  rw [hm]
   rcases (rowFacts c hf).kind with h | h | h | h | h | h | h | h <;> rw [h] <;> rfl
 
 theorem outOf_nil_of_src (st : P1) (k : Nat) (h : ∀ e ∈ st.out, e.src < k) : outOf st k = [] := by
@@ -311,7 +322,8 @@ theorem outOf_nil_of_src (st : P1) (k : Nat) (h : ∀ e ∈ st.out, e.src < k) :
 
 /-- a row that produces no node has been dealt with -/
 theorem Rel.skip {rows : List CRow} {M : Maps} {k : Nat} {s : St} {st : P1} {c : CRow}
-    (h : Rel rows M false k s st) (hc : rows[k]? = some c) (hn : isNodeRow c = false) :
+    (h : Rel rows M false k s st) (hc : rows[k]? = some c) (hn : isNodeRow c = false)
+    (hm : (c.merged && isNamedAct c) = false) :
     Rel rows M false (k + 1) s st := by
   have hg : gOf rows (k + 1) = gOf rows k := by rw [gOf_succ rows k c hc, hn]; simp
   have hlt : ∀ j c', j < k + 1 → rows[j]? = some c' → isNodeRow c' = true → j < k := by
@@ -326,7 +338,12 @@ theorem Rel.skip {rows : List CRow} {M : Maps} {k : Nat} {s : St} {st : P1} {c :
     · exact ⟨.inl (hlt j c' h1 h2 h3.1), h2, h3⟩
     · exact absurd h1.1 (by simp)
   refine ⟨by rw [hg]; exact h.gsize, by rw [hg]; exact h.root, ?_, ?_, h.elno, ?_, h.tgtfr, h.stack, h.ids, ?_, ?_, ?_, ?_,
-    h.args, ?_, ?_, h.rne, fun j hj => h.rnone j (by omega), h.rnoop, h.rfresh⟩
+    h.args, ?_, ?_, h.rne, fun j hj => h.rnone j (by omega), h.rnoop, h.rfresh, ?_⟩
+  rotate_right
+  · refine ⟨fun p hp hne => ?_, fun i c' hi hc' hn' hnn' hne => ?_⟩
+    · obtain ⟨i, c', hi, r⟩ := h.names.1 p hp hne
+      exact ⟨i, c', by omega, r⟩
+    · exact h.names.2 i c' (hlt i c' hi hc' hn') hc' hn' hnn' hne
   · intro j c' hj hc' hn' hnn'
     exact h.grp j c' (hlt j c' hj hc' hn') hc' hn' hnn'
   · intro j c' hj hc' hnn'
@@ -346,9 +363,69 @@ theorem Rel.skip {rows : List CRow} {M : Maps} {k : Nat} {s : St} {st : P1} {c :
     · exact .inl (by omega)
     · exact absurd h1.1 (by simp)
   · intro j c' hv
+    rw [postUpTo_succ rows k j c hc hm]
     exact h.node j c' (conv _ _ hv)
   · intro j c1 j' c2 hv1 hv2
     exact h.disj j c1 j' c2 (conv _ _ hv1) (conv _ _ hv2)
+
+/-- the node name of a row that is not merged is not in use -/
+theorem names_none_of_unmerged {rows : List CRow} {M : Maps} {k : Nat} {names : List (Str × Nat)} {c : CRow}
+    (ha : Annot rows) (h : NamesInv rows M k names) (hc : rows[k]? = some c)
+    (hm : (c.merged && isNamedAct c) = false) (hna : c.row.nodeName ≠ [] → isNamedAct c = true) :
+    c.row.nodeName = [] ∨ names.find? (·.1 = c.row.nodeName) = none := by
+  by_cases hnm : c.row.nodeName = []
+  · exact .inl hnm
+  · right
+    have hnamed := hna hnm
+    rw [hnamed, Bool.and_true] at hm
+    have hma := ha k c hc
+    rw [hm] at hma
+    unfold mergeAt at hma
+    rw [hc] at hma
+    simp only [hnamed, Bool.true_and] at hma
+    cases hfd : names.find? (·.1 = c.row.nodeName) with
+    | none => rfl
+    | some p =>
+      exfalso
+      have hp1 : p.1 = c.row.nodeName := by simpa using List.find?_some hfd
+      obtain ⟨i, ci, hi, hci, _, _, hnai, hnmi, _⟩ := h.1 p (List.mem_of_find?_eq_some hfd) (by rw [hp1]; exact hnm)
+      have : (rows.take k).any (fun c' => isNamedAct c' && decide (c'.row.nodeName = c.row.nodeName)) = true := by
+        rw [List.any_eq_true]
+        refine ⟨ci, ?_, by rw [hnai, hnmi, hp1]; simp⟩
+        rw [List.mem_iff_getElem?]
+        exact ⟨i, by rw [List.getElem?_take, if_pos hi]; exact hci⟩
+      rw [this] at hma; cases hma
+
+theorem unmerged_of_node {c : CRow} (h : isNodeRow c = true) : (c.merged && isNamedAct c) = false := by
+  unfold isNodeRow at h
+  simp only [Bool.and_eq_true, Bool.not_eq_true'] at h
+  exact h.2
+
+/-- the node names after a row that created a node -/
+theorem NamesInv.push {rows : List CRow} {M : Maps} {k : Nat} {names : List (Str × Nat)} {c : CRow}
+    (h : NamesInv rows M k names) (hc : rows[k]? = some c) (hnode : isNodeRow c = true) (hnn : isNoop c = false)
+    (hna : c.row.nodeName ≠ [] → isNamedAct c = true) :
+    NamesInv rows M (k + 1) ((c.row.nodeName, M.nOf k) :: names) := by
+  refine ⟨fun p hp hne => ?_, fun i c' hi hc' hn' hnn' hne => ?_⟩
+  · simp only [List.mem_cons] at hp
+    rcases hp with rfl | hp
+    · exact ⟨k, c, by omega, hc, hnode, hnn, hna hne, rfl, rfl⟩
+    · obtain ⟨i, c', hi, r⟩ := h.1 p hp hne
+      exact ⟨i, c', by omega, r⟩
+  · rcases Nat.lt_succ_iff_lt_or_eq.mp hi with h1 | h1
+    · exact List.mem_cons_of_mem _ (h.2 i c' h1 hc' hn' hnn' hne)
+    · subst h1; rw [hc] at hc'; injection hc' with hc'; subst hc'; simp
+
+/-- … after a `no_op` row -/
+theorem NamesInv.step_noop {rows : List CRow} {M : Maps} {k : Nat} {names : List (Str × Nat)} {c : CRow}
+    (h : NamesInv rows M k names) (hc : rows[k]? = some c) (hnn : isNoop c = true) :
+    NamesInv rows M (k + 1) names := by
+  refine ⟨fun p hp hne => ?_, fun i c' hi hc' hn' hnn' hne => ?_⟩
+  · obtain ⟨i, c', hi, r⟩ := h.1 p hp hne
+    exact ⟨i, c', by omega, r⟩
+  · rcases Nat.lt_succ_iff_lt_or_eq.mp hi with h1 | h1
+    · exact h.2 i c' h1 hc' hn' hnn' hne
+    · subst h1; rw [hc] at hc'; injection hc' with hc'; subst hc'; rw [hnn] at hnn'; cases hnn'
 
 /-! ### the two bookkeeping steps of a row that produces a group -/
 
@@ -356,7 +433,7 @@ theorem Rel.skip {rows : List CRow} {M : Maps} {k : Nat} {s : St} {st : P1} {c :
 theorem Rel.push_node {rows : List CRow} {M : Maps} {k : Nat} {s : St} {st : P1} {c : CRow}
     (h : Rel rows M false k s st) (hc : rows[k]? = some c) (hnode : isNodeRow c = true) (hnn : isNoop c = false)
     (n : NodeM) (hnrnd : ∀ r, n.router = some (RouterM.rnd r) → r.cats = [])
-    (hnsim : ∀ M ns, NodeSim M ns n c []) (nx : Nat) (hnx : s.next ≤ nx) :
+    (hnsim : ∀ M ns, NodeSim M ns n c [] []) (nx : Nat) (hnx : s.next ≤ nx) :
     Rel rows { M with nOf := fun x => if x = k then s.nodes.size else M.nOf x } true k
       { s with nodes := s.nodes.push n, next := nx } st := by
   obtain ⟨M', hM'⟩ : ∃ M' : Maps, M' = { M with nOf := fun x => if x = k then s.nodes.size else M.nOf x } := ⟨_, rfl⟩
@@ -389,7 +466,7 @@ theorem Rel.push_node {rows : List CRow} {M : Maps} {k : Nat} {s : St} {st : P1}
     · simp [idxs, hMo j0 hjj, hMr, hjj]
   refine ⟨h.gsize, h.root, ?_, ?_, by rw [hMel]; exact h.elno, by rw [hMel, hMfr]; exact h.frel,
     by rw [hMfr]; exact h.tgtfr, h.stack, h.ids, h.idok, h.prev, h.srcok, ?_, h.args, ?_, ?_, ?_, ?_,
-    by rw [hMr]; exact h.rnoop, ?_⟩
+    by rw [hMr]; exact h.rnoop, ?_, h.names.congr (fun i _ hi _ _ _ => hMo i (by omega))⟩
   · intro j c' hj hc' hn' hnn'
     rw [hMo j (by omega), hMr]; exact h.grp j c' hj hc' hn' hnn'
   · intro j c' hj hc' hnn'
@@ -404,7 +481,7 @@ theorem Rel.push_node {rows : List CRow} {M : Maps} {k : Nat} {s : St} {st : P1}
       have : c' = c := by have := hv.2.1; rw [hc] at this; injection this with this; exact this.symm
       subst this
       refine ⟨n, by rw [hMk]; simp, ?_⟩
-      rw [outOf_nil_of_src st j hsrck, hrk]
+      rw [outOf_nil_of_src st j hsrck, hrk, postUpTo_le rows (Nat.le_succ j)]
       exact .one (hnsim _ _)
     · obtain ⟨n', hn', hp'⟩ := h.node j c' (hvalid j c' hv hjk)
       refine ⟨n', by rw [hMo j hjk]; exact getElem?_push_of_some n hn', ?_⟩
@@ -453,7 +530,8 @@ theorem Rel.close_row {rows : List CRow} {M : Maps} {pd0 : Bool} {k : Nat} {s3 :
     (hg2 : isNoop c = true → ∃ ps ro, grp = .noop ps ro ∧ (M.el k = false → ro = some (M.nOf k)))
     (rowIds : List (Str × Nat)) (ids : List (Str × Nat)) (names : List (Str × Nat))
     (hids : rowIds = ids.map (fun p => (p.1, gOf rows p.2)))
-    (hlt : ∀ p ∈ ids, p.2 < k + 1 ∧ ∃ c, rows[p.2]? = some c ∧ isNodeRow c = true) :
+    (hlt : ∀ p ∈ ids, p.2 < k + 1 ∧ ∃ c, rows[p.2]? = some c ∧ isNodeRow c = true)
+    (hnames : NamesInv rows M (k + 1) names) :
     Rel rows M false (k + 1)
       { s3 with groups := (s3.groups.push grp).setIfInBounds 0
                   (Grp.block (List.range' 1 (gOf rows k - 1) ++ [s3.groups.size])),
@@ -480,7 +558,7 @@ theorem Rel.close_row {rows : List CRow} {M : Maps} {pd0 : Bool} {k : Nat} {s3 :
     have h0 : ¬ 0 = j := by omega
     simp only [h0, if_false]
   refine ⟨by simp [hsz, hgk], ?_, ?_, ?_, r3.elno, ?_, r3.tgtfr, r3.stack, hids, hlt, ?_, ?_, ?_, r3.args, ?_, ?_, r3.rne,
-    fun j hj => r3.rnone j (by omega), r3.rnoop, r3.rfresh⟩
+    fun j hj => r3.rnone j (by omega), r3.rnoop, r3.rfresh, hnames⟩
   · simp only [Array.getElem?_setIfInBounds, Array.size_push]
     have e1 : gOf rows (k + 1) - 1 = (gOf rows k - 1) + 1 := by omega
     rw [e1, List.range'_concat]
@@ -518,6 +596,7 @@ theorem Rel.close_row {rows : List CRow} {M : Maps} {pd0 : Bool} {k : Nat} {s3 :
     · exact .inl (by omega)
     · exact .inl (by omega)
   · intro j c' hv
+    rw [postUpTo_succ rows k j c hc (unmerged_of_node hnode)]
     exact r3.node j c' (conv _ _ hv)
   · intro j c1 j' c2 hv1 hv2
     exact r3.disj j c1 j' c2 (conv _ _ hv1) (conv _ _ hv2)
